@@ -70,7 +70,10 @@ def scenario(ch, cfg):
         script = []
         for k in range(nt):
             dur = ch.weighted([5, 2, 1, 1], "dur")           # 0, 0.3i, 1.0i, 2.5i
-            ret = 1 if k < nt - 1 else 0
+            # "true" is any Klong-true number, not only 1
+            ret = [1, 1, 2, 0.5, -1][ch.draw(5, "trueval")] if k < nt - 1 else 0
+            if ret != 1 and ret:
+                stats["probe_true_return_other_than_1"] += 1
             if ch.chance(1, 10, "earlystop"):
                 ret = 0
             act = ch.weighted([10, 2, 2 if ntimers > 1 else 0, 1], "act")   # none, cancel self, cancel other, raise
@@ -89,7 +92,7 @@ def scenario(ch, cfg):
         T = timers[tid]
         k = len(T["ticks"])
         sc = T["script"][k] if k < len(T["script"]) else {"dur": 0.0, "ret": 0, "act": 0}
-        entry = {"k": k, "t": w.now, "version": int(version), "expected_version": T["version"], "sc": sc,
+        entry = {"k": k, "t": w.now, "version": int(version), "expected_version": T["version"], "sc": sc, "in_window": bool(T.get("unbound")),
                  "after_stop": T["stopped_at"] is not None, "after_raise": T["raised_at"] is not None}
         T["ticks"].append(entry)
         log.append(f"tick {tid}#{k} t={w.now!r} v={int(version)}")
@@ -165,6 +168,11 @@ def scenario(ch, cfg):
                 externals.append(("cancel", T["id"], at + ch.pick([0.0, 0.25, 3.0], "ext2")))
         if ch.chance(1, 4, "redef"):
             at = t0 + ch.pick([0.5, 1.5, 2.5, 4.5, 7.0], "redefat") * (T["interval"] or 1)
+            if ch.chance(1, 3, "redef_via_value"):
+                # the name holds a plain value for a while (ticks inside that window are not judged for the definition
+                # they run), then a function again: from then on every tick must run that definition
+                externals.append(("unbind", T["id"], at))
+                at += ch.pick([0.6, 1.6, 3.2], "unbound_for") * (T["interval"] or 1)
             externals.append(("redef", T["id"], at))
 
     def do_external(kind, tid):
@@ -173,7 +181,13 @@ def scenario(ch, cfg):
             live = T["stopped_at"] is None
             stats["probe_external_cancel_live" if live else "probe_external_cancel_dead"] += 1
             klong(f'rc({tid};"ext";.timerc(th{tid}))')
+        elif kind == "unbind":
+            T["unbound"] = True
+            stats["probe_callback_name_rebound_to_value"] += 1
+            klong(f"cb{tid}::0")
+            log.append(f"cb{tid}::0 t={w.now!r}")
         else:
+            T["unbound"] = False
             T["version"] += 1
             stats["probe_redefine"] += 1
             klong(cb_source(tid, T["version"]))
@@ -257,6 +271,9 @@ def scenario(ch, cfg):
                 break
         # (3) version re-resolution
         for e in ticks:
+            if e["in_window"]:
+                stats["probe_tick_while_name_holds_a_value"] += 1
+                continue
             if e["version"] != e["expected_version"]:
                 violations.append({"sig": "C15:stale-callback-definition", "msg": f"timer {tid} tick #{e['k']} ran definition v{e['version']}, latest is v{e['expected_version']}"})
                 break
